@@ -87,6 +87,13 @@ func (c *recCore) RouteSendResponse(from, to gen.PID, o gen.MessageOptions, m an
 	c.active--
 	return nil
 }
+func (c *recCore) RouteSendResponseError(from, to gen.PID, o gen.MessageOptions, err error) error {
+	c.active++
+	vsched.Point(vsched.OpUser, 9)
+	c.got = append(c.got, fmt.Sprintf("ack:%d->%d:ref%d:%v", from.ID, to.ID, o.Ref.ID[0], err))
+	c.active--
+	return nil
+}
 func (c *recCore) RouteNodeDown(gen.Atom, error) {}
 func (c *recCore) MakeRef() gen.Ref {
 	return gen.Ref{Node: c.name, Creation: c.creation, ID: [3]uint64{1, 2, 3}}
@@ -275,4 +282,63 @@ func init() {
 			}})
 		}})
 	}
+}
+
+// important messages: two of them, for two receivers and with two references, travel back to back; every
+// acknowledgement that comes back names the receiver and the reference of the message it acknowledges (the
+// reference is read from a pooled frame buffer that is released before the acknowledgement is written)
+func init() {
+	harn.Register(harn.Scenario{Property: "C12", Name: "proto-kernel-2important", Run: func(ctx *harn.Ctx) *harn.Result {
+		return harn.Explore(ctx, harn.Sched{QuickBound: 2, ThoroughBound: 3, Preempt: true, Cache: true, Body: func(ex *vsched.Exec) string {
+			kernelErrors = nil
+			coreA := &recCore{name: "a@h", creation: 100}
+			coreB := &recCore{name: "b@h", creation: 200}
+			var ca, cb *connection
+			ex.Thread("setup", func() {
+				ca = mkConn(coreA, "b@h", 200, 1)
+				cb = mkConn(coreB, "a@h", 100, 1)
+				x, y := vconn.Pair("a0", "b0")
+				if err := ca.Join(x, "k", nil, nil); err != nil {
+					panic(err)
+				}
+				if err := cb.Join(y, "k", nil, nil); err != nil {
+					panic(err)
+				}
+			})
+			ex.RunSetup()
+			var errs []string
+			ex.Thread("S", func() {
+				for i := uint64(1); i <= 2; i++ {
+					from := gen.PID{Node: "a@h", ID: 1001, Creation: 100}
+					to := gen.PID{Node: "b@h", ID: 2000 + i, Creation: 200}
+					ref := gen.Ref{Node: "a@h", Creation: 100, ID: [3]uint64{80 + i, 0, 0}}
+					if err := ca.SendPID(from, to, gen.MessageOptions{Ref: ref, ImportantDelivery: true, KeepNetworkOrder: true}, fmt.Sprintf("i%d", i)); err != nil {
+						errs = append(errs, err.Error())
+					}
+				}
+			})
+			ex.Run()
+			for _, d := range ex.Deadlocked {
+				ex.Fail("deadlock", "thread %s blocked forever", d)
+			}
+			want := map[string]bool{"ack:2001->1001:ref81:<nil>": true, "ack:2002->1001:ref82:<nil>": true}
+			for _, g := range coreA.got {
+				if !want[g] {
+					ex.Fail("important-wrong-acknowledgement", "two important messages (reference 81 for receiver 2001, 82 for 2002) were sent and delivered; the sender's connection handed the acknowledgement %q to the node (all: %v)", g, coreA.got)
+				}
+				delete(want, g)
+			}
+			if len(want) > 0 && len(errs) == 0 {
+				ex.Fail("important-acknowledgement-lost", "no acknowledgement for %v (got %v, delivered %v, log %v)", want, coreA.got, coreB.got, kernelErrors)
+			}
+			if len(errs) > 0 {
+				ex.Fail("send-failed", "SendPID returned %v", errs)
+			}
+			out := strings.Join(coreA.got, " ") + " | " + strings.Join(coreB.got, " ")
+			ex.Release()
+			ca.Terminate(nil)
+			cb.Terminate(nil)
+			return out
+		}})
+	}})
 }
